@@ -31,7 +31,7 @@ import os, re, subprocess, sys
 sys.path.insert(0, os.path.dirname(os.path.abspath(__file__)))
 import vlib
 
-GEN = os.path.join(vlib.VERIF, "coq", "Gen")
+GEN = os.environ.get("VERIF_GEN_DIR") or os.path.join(vlib.VERIF, "coq", "Gen")
 SKIP_DIRS = ("win32",)          # not compiled on this platform; replaced by libc here
 
 
